@@ -102,7 +102,9 @@ prop("C05", "exploration",
      "is a second arrival) and one log record; a delivered version polls as passed and all its parts are answered as received; "
      "non-trivial = a part was retransmitted after its file was complete",
      [dict(pkg="stagex", test="TestC05Stage", world="W1r", quick=1600, thorough=48000, per_proc=100, shrink_runs=200,
-           required_classes=["dup-after-complete", "dup-after-delivery", "restart"])],
+           required_classes=["dup-after-complete", "dup-after-delivery", "restart"]),
+      dict(pkg="stagex", test="TestC05Ageing", world="W1r", quick=8, thorough=96, per_proc=2, shrink_runs=25,
+           required_classes=["cache-sweep-after-25h", "blind-duplicate", "asked-first"])],
      STAGE_ASSUME + ["content never reverts to an earlier version, so a second arrival of (name, hash) is always a duplicate delivery"])
 
 prop("C09", "exploration",
